@@ -5,9 +5,11 @@ import re
 from vlib import Hit, Result, diff_lines, sh
 
 ASSUMPTIONS = [
-    'main theorems: wrapped senders / callables do not throw from their copy or move constructors; the one modelled '
-    'exception (copy assignment of function with a throwing copy constructor, FUNX cases) is the recorded finding F9b; '
-    'other throwing-constructor paths (assign(F const&), copy construction, any_sender clone) are not modelled',
+    'transparency theorems: wrapped senders / callables do not throw from their copy or move constructors; throwing '
+    'constructors are covered by C18_exception_safety_senders (all sender operations, random histories) and '
+    'C18_exception_safety_functions_partial (constructing operations); assignment of functions with a throwing '
+    'constructor is refuted (findings F9b / FUNA) and replayed as witness cases; after such a step the harness only '
+    'observes, copy-assigns and destroys the wrapper (any other use is undefined behaviour of the real code)',
     'wrapped callables are not address-sensitive: function_base relocates inline objects with memcpy / '
     'std::swap of the raw buffer by design; the ledger identity travels inside the object',
     'single-threaded use of a wrapper object (the wrappers are not thread-safe by contract)',
@@ -17,7 +19,7 @@ ASSUMPTIONS = [
 ]
 
 MON_FIELDS = ['alive_at_end', 'double_destroy', 'garbage', 'dead_use', 'blocks_leaked', 'double_free',
-              'bool_mismatch', 'completion_count_bad']
+              'bool_mismatch', 'completion_count_bad', 'misaligned', 'bad_free']
 
 
 def parse_in(line):
@@ -39,20 +41,51 @@ def call_val(v, arg):
 
 
 def completion(v):
-    return {0: 'V%d' % v['k'], 1: 'E%d' % v['k'], 2: 'S'}.get(v['beh'], 'T%d' % v['k'])
+    return {0: 'V%d' % v['k'], 1: 'E%d' % v['k'], 2: 'S', 4: 'TB'}.get(v['beh'], 'T%d' % v['k'])
 
 
 def spec_monitor(kind, f, ops, steps):
     """the property itself on the implementation's observations: wrappers behave like optional values of
     the wrapped type.  Returns (signature-suffix, text) or None."""
     n = (int(f['nu']) + int(f['na'])) if kind == 'SND' else int(f['n'])
+    sbo = f.get('sbo') == '1'
     sl = [None] * n
     for t, (op, st) in enumerate(zip(ops, steps)):
         name = op[0]
         a = [int(x) for x in op[1:]]
         exp = '-'
+        res0, _, emp0 = st.split('|')
+        if name in ('sx', 'kx', 'cx', 'nx', 'mx', 'ax', 'rx') and res0 == 'T0':
+            # exception safety, the property itself: after an operation that threw because a constructor of the
+            # wrapped object threw, the target wrapper is unchanged or empty, every other wrapper is unchanged
+            j = a[0]
+            old = ''.join('1' if x is None else '0' for x in sl)
+            if emp0[j] == '1':
+                sl[j] = None
+            want = ''.join('1' if x is None else '0' for x in sl)
+            if emp0 != want:
+                return 'throw_changed_other:' + name, 'step %d (%s): the operation threw, emptiness %s -> %s' % (t, ','.join(op), old, emp0)
+            continue
+        if name in ('sx', 'kx', 'cx', 'nx', 'mx', 'ax', 'rx'):
+            # no constructor ran (nothing to copy / pointer move): the operation behaves as its plain form
+            name = {'sx': 'st', 'kx': 'cc', 'cx': 'cp' if kind == 'SND' else 'ca', 'nx': 'ns', 'mx': 'mv', 'ax': 'ma', 'rx': 'cr'}[name]
         if name == 'st':
-            sl[a[0]] = {'beh': a[3], 'k': a[4], 'calls': 0}
+            sl[a[0]] = {'beh': a[3], 'k': a[4], 'calls': 0, 'ty': (a[1], a[2] if kind != 'SND' or a[0] < int(f.get('nu', 0)) else 1, a[7] if len(a) > 7 else 0)}
+        elif name == 'ns':
+            j, i = a[0], a[1]
+            sl[j] = dict(sl[i], nested=1) if sl[i] is not None else {'beh': 4, 'k': 0, 'calls': 0, 'nested': 1, 'ty': None}
+        elif name == 'nf':
+            sl[a[0]] = None if a[5] else {'beh': a[3], 'k': a[4], 'calls': 0, 'nested': 1, 'ty': (a[1], 1, a[9])}
+        elif name == 'tg':
+            v = sl[a[0]]
+            q = a[1]
+            if v is None:
+                exp = '-'
+            elif q == 0:
+                exp = 'V1' if v.get('nested') else '-'
+            else:
+                qt = (((q - 1) >> 2) & 1, ((q - 1) >> 1) & 1, (q - 1) & 1)
+                exp = 'V%d' % (v['k'] * 100 + v['calls']) if (not v.get('nested') and v.get('ty') == qt) else '-'
         elif name in ('mv', 'ma', 'mc') or (kind == 'FUN' and name == 'ma'):
             j, i = a[0], a[1]
             if j != i:
@@ -74,8 +107,6 @@ def spec_monitor(kind, f, ops, steps):
         elif name == 'cl':
             v = sl[a[0]]
             exp = 'TB' if v is None else completion(v)
-        elif name == 'cx':
-            return None    # the wrapper's state after a throwing copy constructor is the finding itself
         elif name == 'iv':
             v = sl[a[0]]
             if v is None:
@@ -133,7 +164,7 @@ def ledger_monitor(steps):
 def classify(kind, f, ops):
     names = [o[0] for o in ops]
     has_store = 'st' in names
-    has_xfer = any(x in names for x in ('mv', 'ma', 'cp', 'cc', 'mc', 'ca', 'sw'))
+    has_xfer = any(x in names for x in ('mv', 'ma', 'cp', 'cc', 'mc', 'ca', 'sw', 'ns', 'nf', 'mx', 'ax', 'cx', 'kx', 'nx'))
     has_use = any(x in names for x in ('cr', 'cl', 'iv'))
     return has_store and has_xfer and has_use
 
@@ -195,6 +226,10 @@ def evaluate(ctx, r, harness, drv, tag, ins, outs, mons):
         o_ = outmap.get((kind, cid))
         if o_ is None:
             continue
+        if kind == 'TYPES':
+            r.count('TYPES%s' % tag)
+            r.extra['types%s' % tag] = {'items': f.get('items'), 'decisions': o_.split(' ', 3)[3]}
+            continue
         steps = o_.split(' ', 3)[3].split(';')
         r.count('%s%s' % (kind, tag))
         r.count('%s%s:len<=%d' % (kind, tag, 8 if len(ops) <= 8 else 26))
@@ -230,7 +265,9 @@ def evaluate(ctx, r, harness, drv, tag, ins, outs, mons):
 
 def run(ctx):
     r = Result()
-    r.rule = ('DIFF: the harness generates histories (2-6 wrappers, 1-26 operations: store of a small/big, copyable/move-only, '
+    r.rule = ('DIFF (+ throwing copy/move constructors in every constructing operation, nested wrappers ns/nf, target<T>(), '
+              'over-aligned test types, TYPES case = storage decision of every test type against the generated definitions): '
+              'the harness generates histories (2-6 wrappers, 1-26 operations: store of a small/big, copyable/move-only, '
               'value/error/stopped/connect-throwing sender or plain/throwing stateful callable by l- or r-value through '
               'ctor/operator=/reset/assign; move and copy construction and assignment incl. self-assignment; unique from any; '
               'swap; reset; r- and l-value connect+start; invoke) from VERIF_SEED, runs them on the real wrappers and on the '
@@ -259,13 +296,16 @@ def run(ctx):
         except Exception as e:  # fall through to the normal run
             r.notes.append('replay file not usable: %r' % e)
     if ctx.tier == 'quick':
-        plan = [(h0, '', ctx.seed, 12000, 'sf'), (h1, ':sbo', ctx.seed, 8000, 's'), (h0, '', ctx.seed, 40, 'x')]
+        plan = [(h0, '', ctx.seed, 12000, 'sf'), (h1, ':sbo', ctx.seed, 8000, 's'), (h0, '', ctx.seed, 60, 'x'),
+                (h0, '', ctx.seed, 1, 't'), (h1, ':sbo', ctx.seed, 1, 't')]
     else:
         plan = []
         for k in range(5):
             plan.append((h0, '', ctx.seed + 100 * k, 60000, 'sf'))
             plan.append((h1, ':sbo', ctx.seed + 100 * k, 40000, 's'))
-        plan.append((h0, '', ctx.seed, 400, 'x'))
+        plan.append((h0, '', ctx.seed, 600, 'x'))
+        plan.append((h0, '', ctx.seed, 1, 't'))
+        plan.append((h1, ':sbo', ctx.seed, 1, 't'))
     for (h, tag, sd, n, kinds) in plan:
         run_build(ctx, r, h, drv, tag, sd, n, kinds)
     r.extra['builds'] = ['default', '-DPIKA_DETAIL_ENABLE_ANY_SENDER_SBO (any_sender.cpp compiled into the harness with the macro)']
